@@ -60,10 +60,8 @@ m('C02-consolidate', 'C02 C03', AC,
   'consolidation overwrites instead of adding')
 m('C03-isolate', 'C03', AC,
   """    if group_policy != 'isolate':
-        return True
 """,
   """    if group_policy != 'isolate' or num_granular_groups > 2:
-        return True
 """, 'isolate ignored with three granular groups')
 m('C03-rp-or-tree', 'C03', 'placement/objects/rp_candidates.py',
   """            p for p in self.rp_candidates if set([p.id, p.root_id]) & rp_ids)""",
@@ -72,10 +70,10 @@ m('C03-rp-or-tree', 'C03', 'placement/objects/rp_candidates.py',
 m('C03-same-subtree', 'C03', AC,
   """    if len(rp_uuids) == 1:
         return True
-    common_ancestors""",
+""",
   """    if len(rp_uuids) <= 2:
         return True
-    common_ancestors""", 'same_subtree not checked for two providers')
+""", 'same_subtree not checked for two providers')
 m('C03-nested-old', 'C03', RC,
   """        if self._nested_aware or not self.has_trees:
             return allocation_requests, provider_summaries""",
@@ -140,9 +138,9 @@ m('C08-class-inuse', 'C08 C11 C19', 'placement/objects/resource_class.py',
   'class with exactly one inventory can be deleted')
 m('C09-root-rewrite', 'C09 C11', RP,
   """        for rp in subtree_rps:
-            rp.root_provider_uuid = new_root_uuid""",
+            # If the parent is not updated""",
   """        for rp in subtree_rps[:2]:
-            rp.root_provider_uuid = new_root_uuid""",
+            # If the parent is not updated""",
   'root rewritten for the moved provider and one descendant only')
 m('C09-loop', 'C09 C11', RP,
   """                if parent_uuid in subtree_rp_uuids:""",
